@@ -35,6 +35,18 @@ def r1_r4_score_table(ctx, sym, model):
                 continue
             if got['score'] != want['score']:
                 bad.append((cfg, sup, got['score'], want['score'], got['scores']))
+    # feedback that carries an else-message (shown among the positives when its problem was not detected) scores like
+    # any other feedback
+    for val, trig, sc, muted in itertools.product((-1, 0, 1, None), (True, False), scores[:7], (None, True)):
+        cfg = dict(category='specification', label='S', triggered=trig, valence=val, score=sc, muted=muted,
+                   else_message='well done')
+        for seq in ([anchor, cfg], [cfg, anchor]):
+            n += 1
+            got, want = model.resolve(seq, {}, {}), model.oracle(seq, {}, {})
+            if isinstance(got, tuple):
+                raised.append((cfg, got))
+            elif got['score'] != want['score']:
+                bad.append((cfg, False, got['score'], want['score'], got['scores']))
     # every way of suppressing the scored feedback (and combinations with unrelated entries of the same category)
     sup_variants = [
         ({'specification': {'s': [{}]}}, {}),                                   # category + label
